@@ -1,6 +1,8 @@
 // C10: decoding with the attribute transform skipped exposes integer data + a transform
 // description that reproduce the ordinary decode bit-exactly; everything else is unaffected.
 // Metamorphic monitor over two decodes of the same stream.
+#include <set>
+
 #include "common/canon.h"
 #include "common/codec.h"
 #include "common/geo.h"
@@ -25,7 +27,7 @@ static std::string ReadFile(const std::string &p) {
 }
 
 // Returns "" or the violated clause. stream may come from the generator or from testdata.
-static std::string CheckStream(const std::string &bytes, Rng &r, Reporter &rep, const std::string &desc, std::string *cls) {
+static std::string CheckStream(const std::string &bytes, Rng &r, Reporter &rep, const std::string &desc, std::string *cls, const std::set<uint32_t> *quantized_uids = nullptr) {
   vf::DecResult full = vf::Decode(bytes.data(), bytes.size());
   if (!full.status.ok()) return "";  // not this property's business (C01/C05)
   const int method = static_cast<uint8_t>(bytes[8]);
@@ -87,6 +89,9 @@ static std::string CheckStream(const std::string &bytes, Rng &r, Reporter &rep, 
         }
         // A float attribute that was quantized in the stream must expose a transform when skipped.
         if (skipped && fa->data_type() == DT_FLOAT32 && rep.args().GetInt("expect-transform-att", -1) == i) return "skipped-quantized-attribute-without-transform-data";
+        // The encoder was asked to quantize this float attribute: with its type in the skip set it must come back as
+        // integers with a transform description, not dequantized.
+        if (skipped && fa->data_type() == DT_FLOAT32 && quantized_uids && quantized_uids->count(fa->unique_id())) return "skipped-quantized-attribute-came-back-dequantized: att " + std::to_string(i) + " type " + std::to_string(fa->attribute_type());
         rep.count(skipped ? "attribute/skipped-without-transform" : "attribute/not-skipped");
         continue;
       }
@@ -155,6 +160,8 @@ int main(int argc, char **argv) {
                                     "test_nm.obj.sequential.1.1.0.drc", "test_nm.obj.sequential.cl3.2.2.drc", "test_nm_quant.0.9.0.drc", "octagon_preserved.drc", "annotation.drc"};
     const int64_t nlegacy = sizeof(kLegacy) / sizeof(kLegacy[0]);
     std::string bytes, desc, cls;
+    std::set<uint32_t> quantized;  // unique ids of the float attributes the encoder was asked to quantize
+    bool have_quantized = false;
     if (k < nlegacy) {
       bytes = ReadFile((vf::RepoRoot() + "/testdata/") + kLegacy[k]);
       desc = std::string("legacy ") + kLegacy[k];
@@ -183,10 +190,12 @@ int main(int argc, char **argv) {
       vf::EncResult er = vf::Encode(g, *pc, mesh.get(), o);
       if (!er.status.ok()) { rep.count(std::string("encoder_refused/") + er.status.error_msg()); rep.held(0, false); return; }
       bytes = er.bytes;
+      for (size_t a = 0; a < g.atts.size(); ++a) if (g.atts[a].dt == DT_FLOAT32 && vf::EffectiveQBits(g, o, static_cast<int>(a)) > 0) quantized.insert(g.atts[a].unique_id);
+      have_quantized = true;
     }
     rep.note(desc);
     rep.stage(0, "stream.drc", bytes.data(), bytes.size());
-    std::string bad = CheckStream(bytes, r, rep, desc, &cls);
+    std::string bad = CheckStream(bytes, r, rep, desc, &cls, have_quantized ? &quantized : nullptr);
     if (!bad.empty()) {
       rep.violation(bad.substr(0, bad.find(':')) + "/" + cls, desc + " :: " + bad, {{"stream.drc", bytes}});
       return;
